@@ -60,6 +60,7 @@ Props ==
   /\ Chk("C14_Quorum", C14_Quorum) /\ Chk("C14_FormShape", C14_FormShape)
   /\ Chk("C15_Backed", C15_Backed => C15_Backed') /\ Chk("C15_Step", C15_Step)
   /\ Chk("C17_Indexes", C17_Indexes') /\ Chk("C17_Lists", C17_Lists')
+  /\ Chk("C17_Queries", E.x.qbad = <<>>)   \* the public query methods agree with both indexes and the proof records
   /\ Chk("TypeOK", TypeOK')
   /\ NT("C01", NT01 \/ NT01p) /\ NT("C02", NT02) /\ NT("C03", NT03) /\ NT("C14", NT14 \/ NT14f)
   /\ NT("C15", NT15) /\ NT("C17", NT17)
